@@ -20,3 +20,13 @@ func hashStr(s string) uint64 {
 }
 
 func itoa(i int) string { return strconv.Itoa(i) }
+
+type valueCaseV struct{ v reflect.Value }
+
+func srcsOf(s []valueCaseV) []reflect.Value {
+	out := make([]reflect.Value, len(s))
+	for i := range s {
+		out[i] = s[i].v
+	}
+	return out
+}
